@@ -10,19 +10,29 @@ from . import core, ptq
 MODES = {'C01': 'C01', 'C02': 'C02', 'C08': 'C08'}
 
 
+MC_CFGS = {'quick': ['MC_PTQueue_quick.cfg', 'MC_PTQueue_quick2.cfg'],
+           'thorough': ['MC_PTQueue_quick2.cfg', 'MC_PTQueue_thorough.cfg']}
+
+
 def mc_stage(pid, tier):
     """exhaustive model checking of the I-layer against the P-layer invariants"""
-    cfg = os.path.join(core.SPEC, 'MC_PTQueue_%s.cfg' % tier)
     mod = os.path.join(core.SPEC, 'MC_PTQueue.tla')
-    r = core.tlc_must_pass(mod, cfg, 'PTQueue %s' % tier, timeout=3000, coverage=(tier == 'quick'))
-    out = {'cfg': os.path.basename(cfg), 'states': r.distinct, 'transitions': r.generated,
-           'depth': r.depth, 'wall_s': round(r.wall, 1), 'action_coverage': r.coverage()}
+    out = {'configs': [], 'states': 0, 'transitions': 0}
+    cfgs = []
+    for name in MC_CFGS[tier]:
+        cfg = os.path.join(core.SPEC, name)
+        r = core.tlc_must_pass(mod, cfg, 'PTQueue %s' % name, timeout=3000, coverage=(name == 'MC_PTQueue_quick.cfg'))
+        out['configs'].append({'cfg': name, 'states': r.distinct, 'transitions': r.generated, 'depth': r.depth,
+                               'wall_s': round(r.wall, 1), 'action_coverage': r.coverage()})
+        out['states'] += r.distinct
+        out['transitions'] += r.generated
+        cfgs.append(cfg)
     if pid == 'C02':
         # termination under weak fairness (liveness), uninterrupted runs
         cfg2 = os.path.join(core.SPEC, 'MC_PTQueue_live.cfg')
         r2 = core.tlc_must_pass(mod, cfg2, 'PTQueue liveness', timeout=1200)
         out['liveness'] = {'cfg': 'MC_PTQueue_live.cfg', 'states': r2.distinct, 'property': 'Terminates'}
-    return out, cfg
+    return out, cfgs
 
 
 def second_run(jobs):
@@ -55,9 +65,13 @@ def main(pid, tier, seed):
     rng = random.Random(seed)
     mode = MODES[pid]
     verdict = core.Verdict(pid)
-    mc, mc_cfg = mc_stage(pid, tier)
+    mc, mc_cfgs = mc_stage(pid, tier)
 
-    grammars = ptq.export_grammars(mc_cfg)
+    grammars = []
+    for c in mc_cfgs:
+        for g in ptq.export_grammars(c):
+            if g not in grammars:
+                grammars.append(g)
     work = core.scratch('rules')
     ptraces, itraces, meta = [], [], {}
     tid = 0
